@@ -345,6 +345,20 @@ Proof.
   rewrite Z.ltb_irrefl, Z.gtb_ltb, Z.ltb_irrefl. cbn [orb andb]. rewrite andb_false_r. reflexivity.
 Qed.
 
+Lemma new_frameset_numeral_err : forall t, numeral t -> atoi t = None -> opt_frameset t = None.
+Proof.
+  intros t H Hv. unfold opt_frameset, new_frameset, frame_range_matches.
+  assert (Hs : strip_pad_and_space t = t).
+  { unfold strip_pad_and_space. change all_chars with [[35]; [64]].
+    cbn [fold_left strip_key].
+    rewrite (remove_byte_id 35 t) by (apply numeral_avoids; [exact H | lia | reflexivity]).
+    rewrite (remove_byte_id 64 t) by (apply numeral_avoids; [exact H | lia | reflexivity]).
+    apply remove_byte_id. apply numeral_avoids; [exact H | unfold c_space; lia | reflexivity]. }
+  rewrite Hs. rewrite split_on_single by (apply numeral_avoids; [exact H | unfold c_comma; lia | reflexivity]).
+  cbn [match_parts]. rewrite match_part_char, (tcomp_numeral t H). cbn [bind].
+  cbn [handle_matches handle_match]. rewrite (parse_int_none t Hv). cbn [bind]. reflexivity.
+Qed.
+
 Lemma no_fs_index : forall d b e st,
   q_index (set_padding (mkQ d b e [] 0 None st) []) 0 = d ++ b ++ e.
 Proof. reflexivity. Qed.
@@ -361,7 +375,7 @@ Theorem single_file_roundtrip : forall p st q,
   submatches R_splitPattern p 4 = None ->
   new_fileseq p st = Ok q ->
   (forall name frame ext, submatches R_singleFramePattern p 3 = Some [name; frame; ext] ->
-       not_neg_zero frame /\ (exists v, atoi frame = Some v)) ->
+       not_neg_zero frame) ->
   q_index q 0 = p.
 Proof.
   intros p st q Hsplit Hq Hfr.
@@ -380,8 +394,10 @@ Proof.
   match type of Hq with (if ?b then _ else _) = _ => destruct b end; [apply Hnofs; exact Hq|].
   destruct (submatches R_singleFramePattern p 3) as [l|] eqn:Esf; [|apply Hnofs; exact Hq].
   destruct l as [|name [|frame [|ext' [|x l]]]]; try (apply Hnofs; exact Hq).
-  destruct (Hfr name frame ext' eq_refl) as [Hnz [v Hv]].
+  pose proof (Hfr name frame ext' eq_refl) as Hnz.
   destruct (single_frame_tiles p name frame ext' Esf) as [Htile Hnum].
+  destruct (atoi frame) as [v|] eqn:Hv;
+    [|rewrite (new_frameset_numeral_err frame Hnum Hv) in Hq; apply Hnofs; exact Hq].
   destruct (new_frameset_numeral frame v Hnum Hv) as (f & Hf & Hf0).
   unfold opt_frameset in Hq. rewrite Hf in Hq.
   destruct (path_split name) as [dir' base'] eqn:Eps'. apply path_split_app in Eps'.
@@ -397,14 +413,15 @@ Proof.
   - exact Hnz.
 Qed.
 
-(** the two conditions on the recognised frame text are needed *)
+(** the condition on the recognised frame text is needed *)
 Example neg_zero_is_excluded :
   exists q, new_fileseq (s2b "foo.-0.exr") Hash4 = Ok q /\ q_index q 0 = s2b "foo.00.exr".
 Proof. eexists. split; vm_compute; reflexivity. Qed.
 
-Example overflowing_frame_is_excluded :
+(** a number that does not fit an int is simply not a frame: the path still comes back *)
+Example overflowing_frame_roundtrips :
   exists q, new_fileseq (s2b "foo.99999999999999999999.tar.gz") Hash4 = Ok q /\
-            q_index q 0 = s2b "foo.99999999999999999999.tar.tar.gz".
+            q_index q 0 = s2b "foo.99999999999999999999.tar.gz".
 Proof. eexists. split; vm_compute; reflexivity. Qed.
 
 Print Assumptions frame_path_spec.
